@@ -484,9 +484,58 @@ def _nonuniform(ctx, chk, load, lflow):
             if "rainfall_intensity" in ctx.schema.tables else False
         pragma = any(st.kind == "pragma" and st.name == "foreign_keys" and str(st.value) in ("1", "ON", "on", "TRUE", "true")
                      for s in ctx.sites_in(load) for st in s.statements)
-        fallback = fk and pragma
+        # ... which refuses a non-uniform grid only because the stored end of a step is (start + the one step): on a
+        # non-uniform grid some start + step is not a grid time.  An end taken from the grid itself always satisfies the key.
+        ends_by_step = None
+        for fq2 in sorted(ctx.cg.reachable(load.fq)):
+            for s2 in ctx.sites_in(ctx.cg.func(fq2)):
+                if s2.stmt is not None and s2.stmt.kind == "insert" and s2.stmt.table == "rainfall_intensity" and s2.stmt.select is not None \
+                        and "thru_epoch" in s2.stmt.columns and len(s2.stmt.select.columns) == len(s2.stmt.columns):
+                    e_ = s2.stmt.select.columns[s2.stmt.columns.index("thru_epoch")][0]
+                    ends_by_step = e_[0] == "bin" and e_[1] == "+" and {e_[2][0], e_[3][0]} == {"col", "param"}
+        fallback = fk and pragma and ends_by_step is True
+        fallback_unread = fk and pragma and ends_by_step is None
         ok = False
         desc = "no guard on the differences of the grid times"
+        # guards that look at the grid without differencing it
+        if not cands:
+            gridnames = set()
+            for s_ in sites:
+                if s_.stmt.table == "grid_time" and s_.params_node is not None:
+                    for n_ in ast.walk(s_.params_node):
+                        if isinstance(n_, ast.Name):
+                            dv_ = flow.def_value(n_, mutable_ok=True) if hasattr(flow, "def_value") else None
+                            if isinstance(dv_, (ast.ListComp, ast.List, ast.Call)) or n_.id in f.params:
+                                gridnames.add(n_.id)
+            for g in guards_of(f, include_assert=False):
+                if not all(flow.cfg.dominates(g.node, n) for n in wn):
+                    continue
+                sl = list(back_slice(flow, g.expr, 3))
+                uses = [n_ for e_ in sl for n_ in ast.walk(e_) if isinstance(n_, ast.Name) and n_.id in gridnames and isinstance(n_.ctx, ast.Load)]
+                if not uses:
+                    continue
+                ends_only = True
+                for u in uses:
+                    pu = getattr(u, "parent", None)
+                    const_sub = isinstance(pu, ast.Subscript) and pu.value is u and not isinstance(pu.slice, ast.Slice) and \
+                        (isinstance(pu.slice, ast.Constant) or (isinstance(pu.slice, ast.UnaryOp) and isinstance(pu.slice.operand, ast.Constant)))
+                    is_len = isinstance(pu, ast.Call) and isinstance(pu.func, ast.Name) and pu.func.id == "len"
+                    grows = isinstance(pu, ast.Attribute) and pu.value is u and pu.attr in ("append", "extend", "insert")    # the list is extended, not read
+                    if not (const_sub or is_len or grows):
+                        ends_only = False
+                if ends_only and not fallback and not fallback_unread:
+                    chk.ob("C11.O4", False, where_of(f, g.stmt),
+                           "the only guard on the grid, `%s`, reads fixed elements of it and its length: an interior step of another size is not seen" % ast.unparse(g.stmt.test)[:90],
+                           "more than one distinct rainfall step is refused before time_grid / grid_time are written",
+                           key="load|nonuniform-step",
+                           why="a non-uniform grid would be stored and every later step length would be wrong")
+                    return
+                if not ends_only and not fallback:
+                    chk.indeterminate("C11.O4", where_of(f, g.stmt), "a guard on the grid times of a shape this rule does not read: %s" % ast.unparse(g.stmt.test)[:100])
+                    return
+        if not cands and fallback_unread:
+            chk.indeterminate("C11.O4", where_of(f, sites[0].call), "no differencing guard, and whether the foreign key on thru_epoch refuses a non-uniform grid depends on how thru_epoch is computed, which is not read")
+            return
         for g in cands:
             shape = _uniformity_shape(flow, g)
             dom = all(flow.cfg.dominates(g.node, n) for n in wn)
